@@ -6,7 +6,7 @@
 //! (on the simulated rayon-core scheduler, seeded) and `alpha-g-trg-scalers`.
 
 use crate::eventgen::{light_event, BankList};
-use crate::procsim::{csv_body, csv_tail, run_binary, write_file, RunEnv, Scratch};
+use crate::procsim::{csv_rows, csv_tail, run_binary, write_file, RunEnv, Scratch};
 use alpha_g_detector::midas::TriggerBankName;
 use alpha_g_detector::trigger::TrgPacket;
 use alpha_g_physics::MainEvent;
@@ -580,8 +580,8 @@ impl Check for C19Check {
                 });
                 continue;
             };
-            let Some((_h, rows)) = csv_body(&csv) else {
-                viol.push(Violation { invariant: "C19.I2-csv-malformed".into(), signature: "vertices:malformed".into(), detail: "no comment lines".into(), narrowed: mk_narrow(vec![cfg.clone()]) });
+            let Some(rows) = csv_rows(&csv, &["serial_number", "trg_time", "reconstructed_x", "reconstructed_y", "reconstructed_z"]) else {
+                viol.push(Violation { invariant: "C19.I2-csv-malformed".into(), signature: "vertices:malformed".into(), detail: "a documented column is missing or a row is ragged".into(), narrowed: mk_narrow(vec![cfg.clone()]) });
                 continue;
             };
             let exp: Vec<(u32, Option<u32>)> = vtx.iter().map(|v| (v.serial, v.decoded.map(|d| d.0))).collect();
@@ -655,8 +655,8 @@ impl Check for C19Check {
                 viol.push(Violation { invariant: "C19.I2-run-refused".into(), signature: "scalers:refused".into(), detail: format!("exit code {:?}; stderr: {}", res.code, res.stderr), narrowed });
                 continue;
             };
-            let Some((_h, rows)) = csv_body(&csv) else {
-                viol.push(Violation { invariant: "C19.I2-csv-malformed".into(), signature: "scalers:malformed".into(), detail: "no comment lines".into(), narrowed });
+            let Some(rows) = csv_rows(&csv, &["serial_number", "trg_time", "input", "drift_veto", "scaledown", "pulser", "output"]) else {
+                viol.push(Violation { invariant: "C19.I2-csv-malformed".into(), signature: "scalers:malformed".into(), detail: "a documented column is missing or a row is ragged".into(), narrowed });
                 continue;
             };
             let exp: Vec<(u32, Option<u32>)> = sca.iter().map(|v| (v.serial, v.decoded.as_ref().map(|d| d.0))).collect();
